@@ -93,6 +93,10 @@ def scn_dispatch(params):
             if sum(len(l) + 1 for l in labels) > 250:
                 continue
             qt = rng.choice([proto.T_NS, proto.T_NS, proto.T_A, proto.T_NULL, proto.T_TXT])
+            if rng.random() < 0.3:
+                # record types iodine does not tunnel over (AAAA, SOA, PTR, DNSKEY, HTTPS, ANY ...) and the remaining ones it does:
+                # where a name belongs does not depend on the type asked for
+                qt = rng.choice([28, 6, 12, 48, 65, 255, 2000, proto.T_MX, proto.T_SRV, proto.T_CNAME, proto.T_PRIVATE])
             inside = ref_inside(labels, dl)
             qid = rng.randint(1, 65535)
             n_res, n_cli = len(res_.got), len(cli.got)
@@ -127,6 +131,21 @@ def scn_dispatch(params):
                     out["violations"].append(("C17:dispatch:inside-ns-query-not-answered", "NS query for %r, inside the tunnel domain %s, got no NS answer"
                                               % (name, dom), wit))
             out["nontrivial"].append(repr(("dispatch", kind, inside, qt == proto.T_NS, params["bind"], dl[0] == b"*")))
+            if i % 6 == 5:
+                # a question whose name is no name at all - only a compression pointer to itself, or to somewhere behind the end of
+                # the datagram - right after a query the server handled: it names nothing, so it is not inside the domain, whatever
+                # the server decoded last
+                import struct as _st
+                ptr = rng.choice([b"\xc0\x0c", b"\xc0\x0c", b"\xff\x77", b"\xc0\xff", b"\xc1\x00"])
+                qt2 = rng.choice([proto.T_NS, proto.T_NULL, proto.T_TXT, proto.T_A, proto.T_PRIVATE])
+                d = _st.pack(">HHHHHH", rng.randint(1, 65535), 0x0100, 1, 0, 0, 0) + ptr + (_st.pack(">HH", qt2, 1) if rng.random() < 0.8 else b"")
+                n_cli = len(cli.got)
+                cli.send(40000 + rng.randrange(9), (scen.SERVER_IP, 53), d)
+                k.run(k.now + 30000)
+                out["stats"]["dispatch_pointer_only_names"] = out["stats"].get("dispatch_pointer_only_names", 0) + 1
+                if cli.got[n_cli:]:
+                    out["violations"].append(("C17:dispatch:nameless-query-handled", "a query whose name is only the compression pointer %s (after a query for %r) was answered by the tunnel server"
+                                              % (ptr.hex(), name), wit))
         out["evaluations"] = out["stats"]["dispatch_queries"]
         h = sim.health(srv)
         if h != "running":
